@@ -153,6 +153,8 @@ func runC25(c *Ctx) {
 }
 
 // isMessageBody: v is <plugin.Message>.Data, or a fresh copy of it (make+copy, append(nil, x...)).
+var msgBodyDepth int
+
 func isMessageBody(v ssa.Value) (bool, string) {
 	v = seeThrough(v)
 	isMsgData := func(x ssa.Value) bool {
@@ -217,6 +219,40 @@ func isMessageBody(v ssa.Value) (bool, string) {
 		}
 		if f := staticCallee(&x.Call); f != nil && (f.Name() == "Clone" || f.Name() == "Data") && len(x.Call.Args) > 0 && isMsgData(x.Call.Args[0]) {
 			return true, ""
+		}
+		// a helper of the module that hands back a message body on every return (its parameters
+		// read as this call's arguments)
+		if f := staticCallee(&x.Call); f != nil && f.Blocks != nil && strings.HasPrefix(fnPkgPath(f), Mod) && f.Signature.Results().Len() == 1 && msgBodyDepth < 2 {
+			saved := activeSubst
+			merged := map[*ssa.Parameter]ssa.Value{}
+			for k, v := range saved {
+				merged[k] = v
+			}
+			for i, q := range f.Params {
+				if i < len(x.Call.Args) {
+					merged[q] = x.Call.Args[i]
+				}
+			}
+			activeSubst = merged
+			msgBodyDepth++
+			all, n, why := true, 0, ""
+			for _, r := range returnsOf(f) {
+				if r.Block() == f.Recover || len(r.Results) != 1 {
+					continue
+				}
+				n++
+				if ok, w := isMessageBody(retVal(r, 0)); !ok {
+					all, why = false, w
+				}
+			}
+			msgBodyDepth--
+			activeSubst = saved
+			if all && n > 0 {
+				return true, ""
+			}
+			if n > 0 {
+				return false, "helper " + f.Name() + " does not return a message body: " + why
+			}
 		}
 	}
 	return false, "value " + v.Name() + " (" + PathOf(v) + ") is not a plugin.Message body"
